@@ -24,7 +24,7 @@ class _Ctx:
         self.viol.append({"property": prop, "site": site, "op": opd, "detail": detail, "state": hist.key_from_dense(numpy.zeros((0,), dtype=numpy.int64), 0), "depth": 0})
 
 
-def construction_family(res, tier):
+def construction_family(res, tier, part=None):
     """`construction from arrays` on BOTH strategies of from_array: every small array x embedding x common (omitted / present / absent) x counts x mapping,
     and the sparse 79..120-cell arrays that take the row-scan strategy (k rare cells among 6 slots incl. first/last rows, repeated rare values): the result
     must satisfy every C07 invariant against the (mapped) array."""
@@ -59,7 +59,7 @@ def construction_family(res, tier):
 
     shapes = [(k,) for k in range(1, 5)] + [(2, 2), (3, 2), (2, 3)]
     embs = [(0, 1, 2, 3), (5, -1, 300, 7)]
-    for sh in shapes:
+    for sh in (shapes if part in (None, "small") else []):
         for a in M.all_arrays(sh, range(3)):
             for emb in embs:
                 ea = numpy.array(emb[:3], dtype=numpy.int64)[a]
@@ -69,7 +69,12 @@ def construction_family(res, tier):
                         cm = common if (common is None or not mapping) else mapping.get(common, common)
                         for uc in (False, True):
                             one(ea, cm, countsof(ea) if uc else None, mapping, {"op": "from_array", "array": ea.tolist(), "mapping": mk, "common": cm, "counts": uc})
-    for cfg in c01.rowscan_configs(tier):
+    cfgs = c01.rowscan_configs(tier) if part in (None, "rowscan-even", "rowscan-odd") else []
+    if part == "rowscan-even":
+        cfgs = cfgs[0::2]
+    elif part == "rowscan-odd":
+        cfgs = cfgs[1::2]
+    for cfg in cfgs:
         emb = c01.ROWSCAN_EMBS[cfg["ei"]]
         if emb[5] >= 2 ** 32:
             emb = emb[:5] + (1 << 20,) + emb[6:]
@@ -81,13 +86,25 @@ def construction_family(res, tier):
                     for uc in (False, True):
                         one(a, common, countsof(a) if uc else None, mapping,
                             {"op": "from_array", "rowscan": True, "shape": cfg["shape"], "cells": list(cells), "values": [int(v) for v in vals], "dominant": emb[0], "mapping": mk, "common": common, "counts": uc})
-    return ctx.viol, {"construction_cases": n}
+    return ctx.viol, {"construction_cases" + ("" if part is None else ":" + part): n}
+
+
+def _cf_small(res, tier):
+    return construction_family(res, tier, "small")
+
+
+def _cf_even(res, tier):
+    return construction_family(res, tier, "rowscan-even")
+
+
+def _cf_odd(res, tier):
+    return construction_family(res, tier, "rowscan-odd")
 
 
 def extras(res, tier):
     from .. import bigops
 
-    return [construction_family] + bigops.parts("C07")
+    return [_cf_small, _cf_even, _cf_odd] + bigops.parts("C07")
 
 
 def main(tier, all_violations=False, t0=None):
